@@ -128,8 +128,9 @@ class Model(object):
             if not self.stopped:
                 m = self.clone()
                 alts.append(([("connect", m.nconn)], m._start_connect(now)))
-        elif p == "Connect":
-            # ConnectRetryTimer: drop the attempt, start a new one, stay in Connect
+        elif p == "Connect" and (self.t_cr is None or abs(now - self.t_cr) <= EPS):
+            # ConnectRetryTimer (at its own instant: a start event in Connect is ignored, nothing else
+            # restarts the attempt): drop the attempt, start a new one, stay in Connect
             m = self.clone()
             old = m.conn
             new = m.nconn
